@@ -191,6 +191,9 @@ fn run_script(bin: &PathBuf, script: &Script, with_garbage: bool, odd_ws: Option
         };
         if !*is_garbage && line.starts_with("go") {
             let t0 = s.eng.send(&text);
+            if crate::sess::wants_stop(line) {
+                s.eng.send("stop");
+            }
             match s.eng.wait_for(|l| l.starts_with("bestmove"), WATCHDOG) {
                 Some(i) => answers.push(s.eng.transcript[i].line.clone()),
                 None => {
